@@ -293,8 +293,25 @@ def run(ctx):
     ctx.count("SIB", "junction degree tests", n_thr, 3)
 
 
+    # ---------------- lookup by two cells
+    ctx.clause("looking up an interface that has an interior point by its two cells returns it")
+    fl = repo.func("forsys.frames.Frame.get_big_edge_by_cells")
+    sl = sym.summarize(repo, fl.qualname)
+    c1, c2 = T.sym(fl.params[1]), T.sym(fl.params[2])
+    b0, b1 = ("bv", 0), ("bv", 1)
+
+    def interior(c):
+        return ("map", T.attr(b0, "id"), b0, T.attr(T.idx(T.attr(SELF, "cells"), c), "vertices"), T.b_not(T.ige(T.call("len", (T.attr(b0, "ownEdges"),)), 3)))
+    common = T.call("numpy.intersect1d", (interior(c1), interior(c2)))
+    ids = ("flatmap", T.attr(T.idx(T.attr(SELF, "vertices"), b1), "own_big_edges"), b1, common, T.TRUE)
+    want = T.idx(T.attr(SELF, "big_edges"), T.idx(T.call("list", (T.call("set", (ids,)),)), T.num(0)))
+    rules.decide_equal(ctx, "FORM", f"{fl.qualname} / FORM / interface owning a vertex that is interior to both cells", ctx.where(fl), sl.ret(), want, "looked-up interface")
+
+
 _F, _E, _V = "forsys/frames.py", "forsys/edge.py", "forsys/virtual_edges.py"
 PINNED = [
+    ("lookup by cells uses only the first cell's interior points", _F, "        vertices_in_common = np.intersect1d(c1_vertices, \n                                            c2_vertices)", "        vertices_in_common = np.array(c1_vertices)"),
+    ("lookup by cells walks through small edges", _F, "shared_edge = list(set([edge for vid in vertices_in_common for edge in self.vertices[vid].own_big_edges]))", "shared_edge = list(set([edge for vid in vertices_in_common for edge in self.vertices[vid].ownEdges]))"),
     ("Frame ids copy: junction threshold > 1", _F, """        self.internal_big_edges_vertices = [edge for eid, edge in enumerate(self.big_edges_list) 
                                         if eid not in self.external_edges_id and 
                                         (len(self.vertices[edge[0]].ownCells) > 2 or  """,
